@@ -123,7 +123,9 @@ ALSO4 = {
 }
 
 ALSO5 = {
-    "C01": "the mode helpers compute positions on the tokenised mode, never on the mode string (mode.index / 'in mode').",
+    "C01": "the mode helpers compute positions on the tokenised mode, never on the mode string (mode.index / 'in mode'); the "
+           "search loop over the fused groups is left early only after the fused entry was registered (its else clause "
+           "registers the plain item).",
     "C02": "the bulk helpers hand their own dataset and item on to getall.",
     "C03": "a quotient that is rounded up is a true division (ceil(a // b) rounds nothing).",
     "C04": "the stop condition is evaluated in the three orderings counter < / = / > budget (spelling-independent).",
